@@ -135,6 +135,29 @@ def shaped(ctx, g):
     i = g.iface(name="Client", nmethods=2, ctx=True)
     i["headers"], i["hbreaks"] = [("Authorization", "Bearer abc"), ("x-env", "test"), ("Accept", "text/plain"), ("X-B", "1")], [0, 2]
     out.append(("hdrlines", i, calls_for(g, i, 1)))
+    # struct parameter types with the SAME name in different packages (sub.Filter / local Filter; different fields, aliases,
+    # pointer flags) used by different methods of one interface, both orders: one method must not influence the next
+    for vi, order in enumerate((("sub", "same"), ("same", "sub"), ("sub", "other"))):
+        i = g.iface(name="Client", nmethods=2, ctx=True, verb="GET", struct=True, where=order[0])
+        i["methods"] = [g.method("First", True, verb="GET", struct=True, where=order[0]), g.method("Second", True, verb="DELETE", struct=True, where=order[1])]
+        sts = [m.pop("structs")[0] for m in i["methods"]]
+        for st, mm, w in zip(sts, i["methods"], order):
+            st["name"] = "Filter"
+            for p in mm["params"]:
+                if p["kind"] == "struct":
+                    p["type"] = ("sub." if w == "sub" else "") + "Filter"
+        # different field lists under the one name
+        sts[0]["fields"] = [{"name": "Q", "type": "string", "ptr": False, "alias": "q", "json": None}, {"name": "Max", "type": "int", "ptr": True, "alias": None, "json": None}]
+        sts[1]["fields"] = [{"name": "Limit", "type": "int", "ptr": True, "alias": "limit", "json": None}, {"name": "Name", "type": "string", "ptr": False, "alias": None, "json": None},
+                            {"name": "Q", "type": "string", "ptr": True, "alias": None, "json": None}]
+        i["structs"] = sts
+        out.append(("samename%d" % vi, i, calls_for(g, i, 4)))
+    # large JSON bodies (> 1 KiB, > 64 KiB) on every body verb
+    for vi, verb in enumerate(restgen.BODY_VERBS):
+        i = g.iface(name="Client", nmethods=1, ctx=True, verb=verb, struct=True, where="same")
+        i["structs"][0]["fields"] = [{"name": "Name", "type": "string", "ptr": False, "alias": None, "json": None},
+                                     {"name": "Note", "type": "string", "ptr": True, "alias": None, "json": "note"}]
+        out.append(("large%d" % vi, i, calls_for(g, i, 5, large=0.8)))
     # Rejected: two parameters with the same alias (62d8144: diagnosed, exit 1, no file)
     for verb in ("GET", "PUT"):
         i = g.iface(name="Client", nmethods=2, ctx=True, verb=verb, nscalar=3, nph=1)
@@ -172,7 +195,7 @@ def gen_cases(ctx):
                         {"name": "Name", "type": "string", "ptr": True, "alias": None, "json": None},
                         {"name": "user_name", "type": "string", "ptr": False, "alias": None, "json": None}]
         cases.append(make_case("g%d" % vi, i, calls_for(g, i, 6)))
-    for k in range(ctx.n(150, 1500)):
+    for k in range(ctx.n(110, 1500)):
         i = g.iface()
         kw = {}
         if ctx.rng.random() < 0.15:
@@ -326,8 +349,7 @@ def run_cases(ctx, cases):
                     continue
                 else:
                     im[k] = v
-            for i in range(len(c["calls"])):
-                pre = "c%d" % i
+            for pre in ["%s%d" % (p, i) for i in range(len(c["calls"])) for p in ("c", "L")]:
                 nreq = r["obs"].get(pre + ".nreq")
                 pan = r["obs"].get(pre + ".panic")
                 if pan is not None:
@@ -341,6 +363,19 @@ def run_cases(ctx, cases):
         impl[c["id"]] = im
     model = core.model_run(ctx, [c["sexp"] for c in cases])
     apply_ext(ctx, cases, model)
+    for c in cases:
+        m = model.get(c["id"])
+        if not m:
+            continue
+        for side in ("model", "spec"):
+            d = m[side]
+            for k in [k for k in d if k[0] == "c" and "." in k and k[1:k.index(".")].isdigit()]:
+                # the request the transport sees does not depend on logging / pass-through middlewares in the chain (C19)
+                d["L" + k[1:]] = d[k]
+                if k.endswith(".out") and d[k] == "sent":
+                    pre = k[:-4]
+                    d[pre + ".clen"] = "ok"
+                    d["L" + pre[1:] + ".clen"] = "ok"
     for c in cases:
         m = model.get(c["id"])
         if m:
@@ -401,6 +436,10 @@ def features(c):
             f.append("arg-nil-struct")
         if any(u in s for u in ("a b", "a/b", "%", "?", "#")):
             f.append("arg-url-unsafe")
+        if len(s) > 60000:
+            f.append("arg-body-over-64KiB")
+        elif len(s) > 1400:
+            f.append("arg-over-1KiB")
     return f
 
 
